@@ -162,7 +162,7 @@ func optProfile() *gast.Profile {
 	p.MinRules, p.MaxRules, p.MaxDepth = 3, 9, 3
 	p.W = weights(map[gast.Kind]int{gast.Choice: 20, gast.Seq: 20, gast.Action: 8, gast.And: 3, gast.Not: 4, gast.ZeroOrOne: 5,
 		gast.ZeroOrMore: 6, gast.OneOrMore: 5, gast.RuleRef: 26, gast.Lit: 22, gast.Class: 16, gast.Any: 2, gast.AndCode: 2, gast.NotCode: 2, gast.StateCode: 2})
-	p.Alphabets = [][]rune{[]rune("ab"), []rune("abc"), []rune("aAbB"), []rune("abcd")}
+	p.Alphabets = [][]rune{[]rune("ab"), []rune("abc"), []rune("aAbB"), []rune("abcd"), []rune("a _1"), []rune("aB-.")}
 	p.PMultiLit = 15
 	p.PInverted = 30
 	p.PIgnoreCase = 25
@@ -313,6 +313,15 @@ func c09Strata() []*gast.Grammar {
 		mk(r("S", gast.Plus(gast.C(gast.L("a"), gast.Li("b"), gast.Cl(gast.Chars("c")), gast.Cl(&gast.ClassSpec{Chars: []rune("d"), IgnoreCase: true}), inv("abcdABCD"))))),
 		// leaf rule with labels and an action, used twice in one host
 		mk(r("S", act(gast.S(gast.Lab("a", gast.Ref("P")), gast.L(","), gast.Lab("b", gast.Ref("P"))), 1)), r("P", act(gast.S(gast.Lab("x", gast.Cl(gast.Chars("ab"))), gast.Lab("y", gast.Opt(gast.L("!")))), 2))),
+		// identifier idiom: one leaf class inlined into several hosts that each merge something else into it
+		mk(r("S", gast.S(gast.Ref("IdStart"), gast.Star(gast.Ref("IdPart")), gast.Opt(gast.S(gast.L("="), gast.Ref("KeyStart"))), gast.NotE(gast.Dot()))),
+			r("IdStart", gast.C(gast.Ref("Letter"), gast.L("_"))), r("IdPart", gast.C(gast.Ref("Letter"), gast.Cl(&gast.ClassSpec{Ranges: [][2]rune{{'0', '9'}}}), gast.L("_"))),
+			r("KeyStart", gast.C(gast.Ref("Letter"), gast.L("-"))), r("Letter", gast.Cl(&gast.ClassSpec{Ranges: [][2]rune{{'a', 'c'}}}))),
+		mk(r("S", gast.Plus(gast.C(gast.Ref("A"), gast.Ref("B"), gast.Ref("D")))), r("A", gast.S(gast.L("<"), gast.C(gast.Ref("K"), gast.L("x")))), r("B", gast.S(gast.L(">"), gast.C(gast.L("y"), gast.Ref("K")))),
+			r("D", gast.S(gast.L("!"), gast.C(gast.Ref("K"), gast.Cl(gast.Chars("z"))))), r("K", gast.Cl(gast.Chars("abc")))),
+		// keyword idiom: literals with and without i next to each other, some without cased characters
+		mk(r("S", gast.S(gast.Li("select"), gast.L(" "), gast.Ref("N"), gast.L(" "), gast.Li("from"), gast.L(" "), gast.Ref("N"), gast.Opt(gast.S(gast.L(" "), gast.Li("order"), gast.Li(" by"), gast.L(" "), gast.Ref("N"))), gast.L(";"))),
+			r("N", gast.Plus(gast.Cl(gast.Chars("ab"))))),
 		// a leaf rule whose label has the same name as a label of its host
 		mk(r("S", act(gast.S(gast.Lab("a", gast.L("x")), gast.Ref("L")), 1)), r("L", act(gast.Lab("a", gast.L("y")), 2))),
 		// nested choices and sequences, singleton wrappers through rules
